@@ -9,22 +9,22 @@
 From Cell2V Require Import Common.Tac Common.ListX Common.AList C10.Model C10.Spec C10.Corr C10.Proofs.
 
 (* The front-end's state after any history is exactly that per-connection fold ... *)
-Theorem C10_refines_map : forall val rt vnet vfront vempty route (h : list (op val)) sid,
-  live val (final val rt vnet vfront vempty route h) sid = fmap val rt vnet vfront h sid.
+Theorem C10_refines_map : forall val rt vnet vfront vempty route kinst (h : list (op val)) sid,
+  live val (final val rt vnet vfront vempty route kinst h) sid = fmap val rt vnet vfront h sid.
 Proof. exact refines_map. Qed.
 Print Assumptions C10_refines_map.
 
 (* ... and so is every back-session (connection, NewData, dirty flag, queried snapshot) ... *)
-Theorem C10_refines_back : forall val rt vnet vfront vempty route (h : list (op val)) b,
-  aget b (backs val (final val rt vnet vfront vempty route h)) = bsess_of val rt vnet vfront vempty h b.
+Theorem C10_refines_back : forall val rt vnet vfront vempty route kinst (h : list (op val)) b,
+  aget b (backs val (final val rt vnet vfront vempty route kinst h)) = bsess_of val rt vnet vfront vempty h b.
 Proof. exact back_entry. Qed.
 Print Assumptions C10_refines_back.
 
 (* ... hence every observable result of every operation after every history is the one the
    history functions prescribe (Get / ToJson on both sides, push and query results, the
    forwarded envelope and the receiving instance). *)
-Theorem C10_observations : forall val rt vnet vfront vempty route (ops : list (op val)),
-  run val rt vnet vfront vempty route ops = spec_run val rt vnet vfront vempty route ops.
+Theorem C10_observations : forall val rt vnet vfront vempty route kinst (ops : list (op val)),
+  run val rt vnet vfront vempty route kinst ops = spec_run val rt vnet vfront vempty route kinst ops.
 Proof. exact run_spec. Qed.
 Print Assumptions C10_observations.
 
@@ -37,7 +37,7 @@ Print Assumptions C10_merge_law.
 (* An effective push (something was Set on the handle since its last push / query): per key
    the pushed value, JSON-normalised, replaces the old one; all other keys keep their value.
    Later pushes therefore win per key. *)
-Theorem C10_push_law : forall val rt vnet vfront (h : list (op val)) b sid m,
+Theorem C10_push_law : forall val rt vnet vfront (kinst : Z) (h : list (op val)) b sid m,
   bsid val h b = Some sid -> bdirty val h b = true -> fmap val rt vnet vfront h sid = Some m ->
   exists m', fmap val rt vnet vfront (h ++ [OBackPush b]) sid = Some m' /\
     forall k, aget k m' = match aget k (bnew val h b) with Some v => Some (rt v) | None => aget k m end.
@@ -60,9 +60,9 @@ Print Assumptions C10_frame.
 
 (* A query of a live connection succeeds and returns the WHOLE current map: every key of the
    front-end's map is in the snapshot with its normalised value (other snapshot keys persist). *)
-Theorem C10_query_full : forall val rt vnet vfront vempty route (h : list (op val)) b sid m,
+Theorem C10_query_full : forall val rt vnet vfront vempty route kinst (h : list (op val)) b sid m,
   bsid val h b = Some sid -> fmap val rt vnet vfront h sid = Some m ->
-  obs_at val rt vnet vfront vempty route h (OBackQuery b) = BOk /\
+  obs_at val rt vnet vfront vempty route kinst h (OBackQuery b) = BOk /\
   forall k, aget k (bdata val rt vnet vfront vempty (h ++ [OBackQuery b]) b) =
             match aget k m with Some v => Some (rt v) | None => aget k (bdata val rt vnet vfront vempty h b) end.
 Proof. exact query_law. Qed.
@@ -70,9 +70,9 @@ Print Assumptions C10_query_full.
 
 (* What the handler then reads with Get: its own locally Set value if there is one, else the
    queried one. *)
-Theorem C10_get_after_query : forall val rt vnet vfront vempty route (h : list (op val)) b sid m k,
+Theorem C10_get_after_query : forall val rt vnet vfront vempty route kinst (h : list (op val)) b sid m k,
   bsid val h b = Some sid -> fmap val rt vnet vfront h sid = Some m ->
-  obs_at val rt vnet vfront vempty route (h ++ [OBackQuery b]) (OBackGet b k) =
+  obs_at val rt vnet vfront vempty route kinst (h ++ [OBackQuery b]) (OBackGet b k) =
   BVal (match aget k (bnew val h b) with
         | Some v => Some v
         | None => match aget k m with Some v => Some (rt v) | None => aget k (bdata val rt vnet vfront vempty h b) end
@@ -83,8 +83,8 @@ Print Assumptions C10_get_after_query.
 (* Every forwarded request: the instance is chosen by the route function applied to the
    CURRENT map; the envelope carries the currently bound user id (key _ID of that map), the
    front-end's name and the connection id. *)
-Theorem C10_forward_stamp : forall val rt vnet vfront vempty route (h : list (op val)) sid,
-  obs_at val rt vnet vfront vempty route h (OForward sid) =
+Theorem C10_forward_stamp : forall val rt vnet vfront vempty route kinst (h : list (op val)) sid,
+  obs_at val rt vnet vfront vempty route kinst h (OForward sid) =
   match fmap val rt vnet vfront h sid with
   | Some m => match route m with
               | Some i => BFwd i (id_of val vempty m) vfront sid
@@ -97,11 +97,11 @@ Print Assumptions C10_forward_stamp.
 
 (* A connection that no longer exists: a push changes no map at all (and reports no error),
    a query reports an error and changes neither any map nor the back-session. *)
-Theorem C10_dead_session : forall val rt vnet vfront vempty route (h : list (op val)) b sid,
+Theorem C10_dead_session : forall val rt vnet vfront vempty route kinst (h : list (op val)) b sid,
   bsid val h b = Some sid -> fmap val rt vnet vfront h sid = None ->
   (forall sid', fmap val rt vnet vfront (h ++ [OBackPush b]) sid' = fmap val rt vnet vfront h sid') /\
-  obs_at val rt vnet vfront vempty route h (OBackPush b) = BOk /\
-  obs_at val rt vnet vfront vempty route h (OBackQuery b) = BErr /\
+  obs_at val rt vnet vfront vempty route kinst h (OBackPush b) = BOk /\
+  obs_at val rt vnet vfront vempty route kinst h (OBackQuery b) = BErr /\
   (forall sid', fmap val rt vnet vfront (h ++ [OBackQuery b]) sid' = fmap val rt vnet vfront h sid') /\
   bdata val rt vnet vfront vempty (h ++ [OBackQuery b]) b = bdata val rt vnet vfront vempty h b /\
   bdirty val (h ++ [OBackQuery b]) b = bdirty val h b.
@@ -110,7 +110,7 @@ Print Assumptions C10_dead_session.
 
 (* Set on one back-end, pushed, queried from another back-end: the value's normal form
    (uses idempotence of the JSON round trip). *)
-Theorem C10_set_push_query : forall val rt vnet vfront vempty (route : alist val -> option Z),
+Theorem C10_set_push_query : forall val rt vnet vfront vempty (route : alist val -> option Z) (kinst : Z),
   (forall v, rt (rt v) = rt v) ->
   forall (h : list (op val)) b b2 sid m k v,
   bsid val h b = Some sid -> bsid val h b2 = Some sid -> fmap val rt vnet vfront h sid = Some m ->
@@ -123,14 +123,66 @@ Print Assumptions C10_set_push_query.
    more: every key it set has, on the front-end, the normal form of the last value it set.
    Nothing set between sending a push and its acknowledgement is lost (the dirty flag is cleared
    when the push is SENT). *)
-Theorem C10_pipelined_pushes : forall val rt vnet vfront (route : alist val -> option Z) (h : list (op val)) b sid m acts,
-  bsid val h b = Some sid -> fmap val rt vnet vfront h sid = Some m -> has_query val acts = false ->
+Theorem C10_pipelined_pushes : forall val rt vnet vfront (route : alist val -> option Z) (kinst : Z) (h : list (op val)) b sid m acts,
+  bsid val h b = Some sid -> fmap val rt vnet vfront h sid = Some m ->
+  has_query val acts = false -> has_kick val acts = false ->
   exists m', fmap val rt vnet vfront ((h ++ [OBackScript b acts]) ++ [OBackPush b]) sid = Some m' /\
     forall k, set_in val k acts = true ->
       exists v, aget k (bnew val ((h ++ [OBackScript b acts]) ++ [OBackPush b]) b) = Some v /\
                 aget k m' = Some (rt v).
 Proof. exact script_then_push. Qed.
 Print Assumptions C10_pipelined_pushes.
+
+(* THE CLOSING WINDOW.  A script that kicks its connection ([AKick]: the front closes the socket
+   when it handles sys.kick; the session stays registered until the posted RemoveSession has run,
+   i.e. after the script's remaining pushes / queries): every push of the script - before AND
+   after the kick - is merged, its queries return the data (no error), the OnClose handler's view
+   of the session ([BAcksClosed _ view]) contains all of it, and only then is the connection gone.
+   [no_kicks acts] = the same script without the kicks: the kick is invisible to data. *)
+Theorem C10_closing_window : forall val rt vnet vfront vempty route kinst (h : list (op val)) b sid m acts,
+  bsid val h b = Some sid -> fmap val rt vnet vfront h sid = Some m -> has_kick val acts = true ->
+  obs_at val rt vnet vfront vempty route kinst h (OBackScript b acts) =
+    BAcksClosed (script_acks val true acts)
+                (norm val rt (script_front val rt m (bnew val h b) (bdirty val h b) (no_kicks val acts))) /\
+  fmap val rt vnet vfront (h ++ [OBackScript b acts]) sid = None /\
+  bdata val rt vnet vfront vempty (h ++ [OBackScript b acts]) b =
+    script_data val (bdata val rt vnet vfront vempty h b)
+                (script_snaps val rt m (bnew val h b) (bdirty val h b) (no_kicks val acts)).
+Proof. exact closing_window. Qed.
+Print Assumptions C10_closing_window.
+
+(* What the OnClose handler sees when a connection is removed: the whole current map. *)
+Theorem C10_onclose_view : forall val rt vnet vfront vempty route kinst (h : list (op val)) sid m,
+  fmap val rt vnet vfront h sid = Some m ->
+  obs_at val rt vnet vfront vempty route kinst h (ORemove sid) = BClosed (norm val rt m).
+Proof. exact onclose_view. Qed.
+Print Assumptions C10_onclose_view.
+
+(* SESSION OBJECT IDENTITY.  The session a handler keeps from a forwarded request of [sid]
+   (it answers first and goes on using ctx.Session) belongs to [sid] and carries the id bound at
+   that moment ... *)
+Theorem C10_kept_session : forall val rt vnet vfront vempty (h : list (op val)) sid b m,
+  fmap val rt vnet vfront h sid = Some m -> bsid val h b = None ->
+  bsid val (h ++ [OForwardKeep sid b]) b = Some sid /\
+  bdata val rt vnet vfront vempty (h ++ [OForwardKeep sid b]) b = aset k_id (id_of val vempty m) [].
+Proof. exact kept_session. Qed.
+Print Assumptions C10_kept_session.
+
+(* ... it addresses that connection for as long as it is used, whatever happens meanwhile (other
+   forwarded requests of other connections served by the same back-end, other handles) ... *)
+Theorem C10_handle_identity : forall val (h h' : list (op val)) b s,
+  bsid val h b = Some s -> bsid val (h ++ h') b = Some s.
+Proof. exact handle_identity. Qed.
+Print Assumptions C10_handle_identity.
+
+(* ... so a late push / script through it changes only its own connection's map. *)
+Theorem C10_late_use_frame : forall val rt vnet vfront (h h' : list (op val)) b sid o sid',
+  bsid val h b = Some sid ->
+  (o = OBackPush b \/ exists acts, o = OBackScript b acts) ->
+  sid' <> sid ->
+  fmap val rt vnet vfront ((h ++ h') ++ [o]) sid' = fmap val rt vnet vfront (h ++ h') sid'.
+Proof. exact late_use_frame. Qed.
+Print Assumptions C10_late_use_frame.
 
 (* the hypothesis of C10_set_push_query is met by the concrete JSON values of the harness *)
 Theorem C10_concrete_rt_idempotent : forall v, crt (crt v) = crt v.
@@ -147,7 +199,18 @@ Example C10_example :
   = [BUnit; BUnit; BUnit; BUnit; BFwd 1 (VStr 7) (VStr 0) 1; BUnit; BUnit; BUnit; BUnit; BOk;
      BFwd 2 (VStr 7) (VStr 0) 1; BVal (Some (VNum 5)); BOk; BVal (Some (VNum 5));
      BMap [(0, VStr 7); (1, VNum 1); (2, VStr 0); (3, VStr 2); (4, VNum 5)];
-     BUnit; BUnit; BOk; BErr; BMap [(1, VNum 2); (2, VStr 0)]].
+     BClosed [(0, VStr 7); (1, VNum 1); (2, VStr 0); (3, VStr 2); (4, VNum 5)]; BUnit; BOk; BErr; BMap [(1, VNum 2); (2, VStr 0)]].
+Proof. vm_compute. reflexivity. Qed.
+
+(* closing window and kept sessions on the harness configuration: a login-like script kicks its
+   connection, binds and pushes after the kick - the OnClose view has the uid; two connections'
+   kept sessions stay apart *)
+Example C10_example_window :
+  model_run [OConnect 1; OConnect 2; OForwardKeep 1 1; OForwardKeep 2 2; OBackSet 1 4 (VInt 1); OBackPush 1;
+             OBackScript 2 [AKick; ASet 0 (VStr 7); APush; AQuery]; OBackGet 2 0; OFrontDump 1; OFrontDump 2]
+  = [BUnit; BUnit; BFwd 3 (VStr 9) (VStr 0) 1; BFwd 3 (VStr 9) (VStr 0) 2; BUnit; BOk;
+     BAcksClosed [true; true] [(0, VStr 7); (1, VNum 2); (2, VStr 0)]; BVal (Some (VStr 7));
+     BMap [(1, VNum 1); (2, VStr 0); (4, VNum 1)]; BIgnored].
 Proof. vm_compute. reflexivity. Qed.
 
 (* the hypotheses of C10_push_law / C10_query_full / C10_dead_session are met by reachable histories *)
